@@ -10,7 +10,7 @@
       [window_td r first last]     = [(S k, E k - S k) | k = first .. last]
     Model of the code (theories/Timeline.v): [calcWrapTimes], [generateTimelineEntries] (MPD side),
     [lookup] = the segment request by $Number$ / $Time$ with [checkTime] (server side). *)
-From Verif Require Import GoSem Timeline TimelineProofs Window WindowProofs.
+From Verif Require Import GoSem Timeline TimelineProofs Window WindowProofs Template TemplateProofs.
 From VerifGen Require Consts.
 
 (** Constants of the Go source the model depends on (regenerated from /repo on every run). *)
@@ -166,6 +166,75 @@ Example C02_big_ato_example :
   lookup ato_rep 8000 ato_cfg ByNumber 5 7900 = TTooEarly 1600.
 Proof. exact big_ato_example. Qed.
 Print Assumptions C02_big_ato_example.
+
+(** ** $Number$ template (theories/Template.v: adjustAdaptationSetForSegmentNumber).  The MPD lists nothing; a
+    client derives number [k] from startNumber, @duration ([templDur]) / @timescale,
+    availabilityStartTime, availabilityTimeOffset and timeShiftBufferDepth:
+      [implEnd r c k]   = (k - startNumber + 1) * @duration   (implied end, ticks)
+      [implAvail r c atoMS k] = (start + implEnd / timescale - ato) in ms * timescale
+      [implied r c atoMS k now] = 425 before [implAvail], 410 after [implAvail] + tsbd + margin,
+                                  else 200 with time (k - startNumber) * @duration, @duration, k. *)
+
+(** With one duration [d] for all segments the template describes the looped timeline exactly. *)
+Theorem C02_template_timeline : forall r loopMS d, wf r loopMS -> const_dur r d -> d < two32 ->
+  templDur r = d /\ forall n, 0 <= n -> S r n = n * templDur r /\ E r n = (n + 1) * templDur r.
+Proof. exact template_timeline. Qed.
+Print Assumptions C02_template_timeline.
+
+(** ... and the answer of the server to every number from startNumber on is the implied one, at
+    every instant: the implied set is the served set, with the implied time, duration, number. *)
+Theorem C02_template_exact : forall r loopMS c d atoMS k now,
+  wf r loopMS -> const_dur r d -> d < two32 -> ato c = Some atoMS -> 0 <= atoMS ->
+  0 <= startNr c <= k -> k < two32 ->
+  lookup r loopMS c ByNumber k now = implied r c atoMS k now.
+Proof. exact template_exact. Qed.
+Print Assumptions C02_template_exact.
+
+Theorem C02_template_served_iff : forall r loopMS c d atoMS k now,
+  wf r loopMS -> const_dur r d -> d < two32 -> ato c = Some atoMS -> 0 <= atoMS ->
+  0 <= startNr c <= k -> k < two32 ->
+  let av := implAvail r c atoMS k in
+  ((exists m, lookup r loopMS c ByNumber k now = TOk m) <->
+     av <= now * ts r <= av + (tsbdS c + tsbdMarginS) * 1000 * ts r) /\
+  ((exists ms, lookup r loopMS c ByNumber k now = TTooEarly ms) <-> now * ts r < av) /\
+  (lookup r loopMS c ByNumber k now = TGone <->
+     av <= now * ts r /\ av + (tsbdS c + tsbdMarginS) * 1000 * ts r < now * ts r).
+Proof. exact template_served_iff. Qed.
+Print Assumptions C02_template_served_iff.
+
+(** Varying durations (finding number-template-mean-duration-truncated): 7 segments in 12 s at
+    timescale 12800, @duration = 153600 / 7 truncated to 21942.  For number 2000000 the implied end
+    is more than 100 s before the real one, and at the implied availability instant the server
+    still answers 425 with more than 100 s to go. *)
+Theorem C02_template_drift_refuted :
+  exists r loopMS c atoMS n now,
+    wf r loopMS /\ ato c = Some atoMS /\ 0 <= atoMS /\ 0 <= n /\ 0 <= startNr c /\ startNr c + n < two32 /\
+    let k := startNr c + n in
+    100000 * ts r < (E r n - implEnd r c k) * 1000 /\
+    implAvail r c atoMS k <= now * ts r /\
+    exists ms, lookup r loopMS c ByNumber k now = TTooEarly ms /\ 100000 < ms.
+Proof. exact template_drift_witness. Qed.
+Print Assumptions C02_template_drift_refuted.
+
+(** Non-vacuity of the template theorems: 4 x 2 s loop, start 30 s, startNumber 7, tsbd 10 s,
+    availabilityTimeOffset 0.5 s.  Number 41 (index 34) is implied available from
+    30 + 70 - 0.5 = 99.5 s until 119.5 s. *)
+Example C02_template_example :
+  let r := ato_rep in let c := {| startS := 30; startNr := 7; tsbdS := 10; ato := Some 500 |} in
+  wf r 8000 /\ const_dur r 180000 /\ templDur r = 180000 /\
+  implAvail r c 500 41 = 99500 * 90000 /\
+  map (fun now => implied r c 500 41 now) [99499; 99500; 119500; 119501]
+  = [TTooEarly 1;
+     TOk {| origTime := 360000; newTime := 6120000; origNr := 3; newNr := 41;
+            origDur := 180000; newDur := 180000; mtimescale := 90000 |};
+     TOk {| origTime := 360000; newTime := 6120000; origNr := 3; newNr := 41;
+            origDur := 180000; newDur := 180000; mtimescale := 90000 |};
+     TGone] /\
+  map (fun now => lookup r 8000 c ByNumber 41 now) [99499; 99500; 119500; 119501]
+  = map (fun now => implied r c 500 41 now) [99499; 99500; 119500; 119501].
+Proof.
+  cbv zeta. split; [exact ato_rep_wf|]. split; [repeat constructor|]. vm_compute. repeat split; reflexivity.
+Qed.
 
 (** Non-vacuity: 4 x 2 s loop (testpic_2s/V300), start 30 s, startNumber 7, tsbd 10 s,
     availabilityTimeOffset 0.5 s, now = 100 s: segments 29..34 are listed, all served with their
